@@ -99,7 +99,29 @@ func (crashWorld) Gen(seed uint64, tier string) core.Scenario {
 		if pos < len(base.regions) {
 			region = base.regions[pos]
 		}
-		switch r.Intn(10) {
+		switch r.Intn(11) {
+		case 10: // two hostile lengths that agree with each other: a huge track length and a huge data length inside it
+			hs := regionStarts(base.regions, len(data), "chunk-len", "track-first-chunkhdr", "track-later-chunkhdr")
+			ls := regionPositions(base.regions, len(data), "meta-len", "sysex-len")
+			if len(hs) > 0 {
+				hp := hs[r.Intn(len(hs))]
+				if base.regions[hp] != "chunk-len" {
+					hp += 4
+				}
+				v := r.PickU32(0x7FFFFFFF, 0xFFFFFFFF, 0x10000000, 0x0FFFFFFF)
+				if hp+4 <= len(data) {
+					data[hp], data[hp+1], data[hp+2], data[hp+3] = byte(v>>24), byte(v>>16), byte(v>>8), byte(v)
+				}
+				lp := pos
+				if len(ls) > 0 {
+					lp = ls[r.Intn(len(ls))]
+				}
+				huge := [][]byte{{0xFF, 0xFF, 0xFF, 0x7F}, {0xC0, 0x80, 0x80, 0x00}, {0x8F, 0xFF, 0xFF, 0xFF, 0x7F}}[r.Intn(3)]
+				if lp < len(data) {
+					data = append(data[:lp], append(append([]byte{}, huge...), data[lp+1:]...)...)
+				}
+				c.How += "consistent-huge-lengths "
+			}
 		case 6: // a length byte becomes a small value: fixed-layout events (tempo, time signature, ...) get the wrong size
 			lens := regionPositions(base.regions, len(data), "meta-len", "sysex-len", "eot-len")
 			if len(lens) > 0 {
